@@ -114,6 +114,56 @@ def plan_merge(rng, r):
     return ops + [{'op': 'merge', 'mop': mo, 't': base, 't2': base + 1}, {'op': 'merge', 'mop': 'MOr', 't': base + 1, 't2': base}]
 
 
+def plan_keptrow(rng, r):
+    """Directed plan: a Row object is taken and written through (dm[i].name = v, the Row is kept), then the table it
+    points into is changed by an operation that rebuilds the table's internals (rename, row deletion, column deletion,
+    a new column, resize, sorted flag), then the SAME Row object is written through again -- under the new name after a
+    rename.  The Row still denotes row i of the table as it is now."""
+    P = r.pool
+    cands = [i for i, q in enumerate(P) if len(q) >= 2 and [c for c in col_kinds(q) if c[1] is not None]]
+    if not cands:
+        return None
+    ti = rng.choice(cands)
+    dm = P[ti]
+    n = len(dm)
+    cols = [(nm, kd) for nm, kd in col_kinds(dm) if kd is not None]
+    name, kind = rng.choice(cols)
+    i = rng.randrange(n - 1) if rng.random() < 0.6 else rng.randint(-n, -2) if n >= 2 and rng.random() < 0.5 else 0
+    w1 = {'op': 'setcell', 't': ti, 'name': name, 'addr': {'k': 'row', 'i': i, 'via': 'kept'},
+          'rhs': {'k': 'scalar', 'v': pyobs.enc(pick_value(rng, kind, 0))}}
+    name2 = name
+    c = rng.random()
+    if c < 0.35:
+        free = [x for x in NAMES + ['e', 'f'] if x not in dict(col_kinds(dm))]
+        if not free:
+            return None
+        name2 = rng.choice(free)
+        mid = {'op': 'rename', 't': ti, 'old': name, 'new': name2}
+    elif c < 0.65:
+        # delete a row AFTER the kept one (the kept index stays in range and keeps denoting the same row for i >= 0)
+        pos = i if i >= 0 else n + i
+        later = [j for j in range(n) if j > pos]
+        if not later:
+            return None
+        mid = {'op': 'delrows', 't': ti, 'l': [rng.choice(later)]}
+        if i < 0:
+            i_after = i     # counted from the end: now another row, which is what the Row denotes
+    elif c < 0.8:
+        others = [nm for nm, _k in cols if nm != name]
+        if not others:
+            return None
+        mid = {'op': 'delcol', 't': ti, 'name': rng.choice(others), 'how': rng.choice(['item', 'attr'])}
+    elif c < 0.9:
+        mid = {'op': 'setlength', 't': ti, 'n': n + 1}
+    else:
+        mid = {'op': 'setcolkind', 't': ti, 'name': rng.choice([x for x in NAMES + ['e', 'f']]), 'kind': rng.choice(['KMixed', 'KFloat', 'KInt'])}
+        if mid['name'] == name:
+            return None
+    w2 = {'op': 'setcell', 't': ti, 'name': name2, 'addr': {'k': 'row', 'i': i, 'via': 'kept'},
+          'rhs': {'k': 'scalar', 'v': pyobs.enc(pick_value(rng, kind, 0))}}
+    return [w1, mid, w2]
+
+
 def gen_op(rng, r, weights, bad_rate=0.08, max_pool=7, max_rows=9):
     """Choose the next operation given the runner's live pool."""
     P = r.pool
@@ -124,6 +174,11 @@ def gen_op(rng, r, weights, bad_rate=0.08, max_pool=7, max_rows=9):
         return plan.pop(0)
     if weights.get('merge', 0) >= 10 and len(P) + 3 <= max_pool and rng.random() < 0.12:
         made = plan_merge(rng, r)
+        if made:
+            r.plan = made[1:]
+            return made[0]
+    if weights.get('setcell', 0) >= 12 and rng.random() < 0.04:
+        made = plan_keptrow(rng, r)
         if made:
             r.plan = made[1:]
             return made[0]
@@ -163,8 +218,15 @@ def gen_op(rng, r, weights, bad_rate=0.08, max_pool=7, max_rows=9):
                     name = rng.choice(NAMES)
                     kind = dict(cols).get(name, 'KMixed')
                 addr = {'k': form, 'i': i}
-                if form == 'row' and rng.random() < 0.4:
-                    addr['via'] = 'iter'
+                if form == 'row':
+                    c_ = rng.random()
+                    if c_ < 0.3:
+                        addr['via'] = 'iter'
+                    elif c_ < 0.65:
+                        addr['via'] = 'kept'
+                        held = [k_[1] for k_ in getattr(r, 'kept', {}) if k_[0] == ti and -n <= k_[1] < n]
+                        if held and rng.random() < 0.7:
+                            addr['i'] = rng.choice(held)
                 return {'op': 'setcell', 't': ti, 'name': name, 'addr': addr,
                         'rhs': {'k': 'scalar', 'v': pyobs.enc(pick_value(rng, kind, bad_rate))}}
             if form == 'slice':
